@@ -401,7 +401,7 @@ def standard_front(chk, prop_rel, needs_items=(), extra_vo=()):
     if chk.tier == 'thorough' and th['ok']:
         # the independent checker re-checks the compiled property file and everything it depends on
         mod = 'PM.' + prop_rel[:-2].replace('/', '.')
-        rc2, out2 = sh('timeout 2400 coqchk -silent -o -R . PM %s 2>&1 | tail -60' % mod, cwd=COQ, timeout=2500)
+        rc2, out2 = sh('timeout 2400 coqchk -o -R . PM %s 2>&1 | tail -80' % mod, cwd=COQ, timeout=2500)
         ok2 = 'Modules were successfully checked' in out2
         chk.notes['coqchk'] = dict(ok=ok2, axioms=sorted(set(re.findall(r'(?m)^\s*([A-Za-z_][\w\.]*\.[\w\.]+)\s*$', out2.split('* Axioms:')[-1].split('* Constants')[0])))[:60] if '* Axioms:' in out2 else [])
         if not ok2:
